@@ -195,6 +195,25 @@ Fixpoint exec (p : stmt) (t : tid) (e : env) (k : st_core) {struct p} : result :
       end
   end.
 
+(* ---- the cancellation check comes before anything else (F53) ----
+   checkpoint_if_cancelled() may YIELD and then return normally (the cancelled scope stopped being visible during the
+   yield: F46).  Whatever the segment read or did before the check would then be stale when it goes on.  `ckif_first p`:
+   apart from binding `task`, the check is the first statement of p and occurs nowhere else, so test and take happen
+   after the only possible yield, in one await-free stretch. *)
+Fixpoint no_ckif (p : stmt) : bool :=
+  match p with
+  | SCkIf => false
+  | SSeq a b | SIf _ a b => no_ckif a && no_ckif b
+  | SPopLoop b | SCall b => no_ckif b
+  | _ => true
+  end.
+
+Definition ckif_first (p : stmt) : bool :=
+  match p with
+  | SSeq SBindTask (SSeq SCkIf r) | SSeq SCkIf r => no_ckif r
+  | _ => false
+  end.
+
 (* ---- the table the translator fills ---- *)
 Record prog := mkprog {
   p_acquire_entry : stmt;             (* acquire(): from the call to the first suspension / return / raise *)
